@@ -29,13 +29,11 @@ import Blots.Lemmas.PrintLemmas
   `Model/Format.lean`, total functions that return the output as a list of PIECES; `render` of
   the pieces is the text of `formatter.rs`, tied to it character for character by the
   correspondence harness), for EVERY tree, width and indent, through every layout branch:
-   * `format_keeps_every_comment`  : the comment pieces of the output are copies of
+   * `format_preserves_comments`   : the comments in the output (the comment pieces) ARE
      `printedComments e` — every leading and trailing comment of every `Commented` wrapper of
      the tree except the trailing comment of a do-block's `return` item — one for one, in
-     source order; and what each piece shows is its comment up to `CommentKept` (carriage
-     returns deleted, line feeds deleted at the end);
-   * `format_preserves_comments`   : if the comments are clean (no carriage return, not
-     ending in a line feed) the comment pieces ARE `printedComments e`, character for character;
+     source order, character for character; no hypothesis on the tree or the comments;
+   * `format_keeps_every_comment`  : the same with the counting consequences spelled out;
    * `format_preserves_all_comments`: … and are `commentsOf e` (all comments) for trees
      without trailing comment on a `return` item — every tree the parser builds;
    * `every_layout_preserves_comments`: the same for each function of `formatter.rs`
@@ -44,12 +42,13 @@ import Blots.Lemmas.PrintLemmas
    * `format_expr_preserves_comments`, `render_pieces_is_format` : for `format_expr` itself.
   The model is total by structural recursion, there is no fuel (`layouts_are_total_functions`).
 
-  WHERE THE FORMATTER (as modelled, confirmed on the real code) DOES NOT KEEP A COMMENT:
-   * `carriage_return_is_stripped_from_comment` : `format_binary_op_multiline` sends the
-     formatted right operand of `via` / `into` / `where` through `lines()` and `join("\n")`;
-     that deletes a `'\r'` in front of a `'\n'` — inside a comment (and inside a string
-     literal: a C07 matter).  Witness on the real code: `y = l via x => [⏎  v, // c␍␍⏎]`
-     prints the comment `// c␍` as `// c`; `y = l via x => "a␍⏎b"` prints the string `a⏎b`.
+  Until repo commit 6027914 `format_binary_op_multiline` sent the formatted right operand of
+  `via` / `into` / `where` through `lines()` and `join("\n")`, which deleted a `'\r'` in front
+  of a `'\n'` inside comments (and string literals): found by this proof (the exact statement
+  did not go through), repaired in the repo; `carriage_return_is_kept_in_comment` is the
+  regression example.
+
+  WHERE THE FORMATTER (as modelled) DOES NOT KEEP A COMMENT — only shapes the parser never builds:
    * `return_trailing_comment_is_dropped` : a trailing comment on the `return` item of a
      do-block is never printed.  Only trees built by hand have one: the parser sets `None`
      there and the grammar rejects `return x // c` before the closing brace.
@@ -58,7 +57,9 @@ import Blots.Lemmas.PrintLemmas
      that (lambdas go to `format_lambda`), hence the hypothesis of the `format_multiline` part.
 
   NOT proved: that the parser attaches every comment of the source text to some node (it does
-  not for comment-only lists / records: known findings `c09.comment-only-list`, `-record`),
+  not for comment-only lists / records: known findings `c09.comment-only-list`, `-record`;
+  and not for a comment at a line break INSIDE an expression, `z = 1 + // c⏎  2`, which the
+  grammar reads as white space: known finding `c09.comment-at-line-break-in-expression`),
   and the statement-level handling of the drivers (main.rs / wasm format loops: standalone and
   end-of-line comments of statements) — there is no model of the driver loop.  Both are covered
   by the model-free oracle of `harness/src/props/c09.rs` (comment sequence of the output =
@@ -146,35 +147,39 @@ theorem do_statement_chunks (sc : Scope) (lead : List String) (e : Expr) (tr : O
 
 /-! ### the width-driven layouts: every comment, every layout, every width and indent -/
 
-/-- MAIN THEOREM, general form.  For every tree, width and indent the comment pieces of
-    `format_expr_impl`'s output were copied from exactly the comments `printedComments e`, one
-    for one and in source order, and each comment piece shows its comment — up to
-    `CommentKept`: some carriage returns deleted, line feeds deleted at its end. -/
-theorem format_keeps_every_comment (w indent : Nat) (e : Expr) :
-    commentOrigs (fmtImplP w indent e) = printedComments e ∧
-    (∀ o s, Piece.comment o s ∈ fmtImplP w indent e → CommentKept s o) ∧
-    (commentPieces (fmtImplP w indent e)).length = (printedComments e).length ∧
-    ∀ i (h1 : i < (commentPieces (fmtImplP w indent e)).length) (h2 : i < (printedComments e).length),
-      CommentKept ((commentPieces (fmtImplP w indent e))[i]) ((printedComments e)[i]) := by
-  have h := good_impl e w indent
-  exact ⟨h.1, fun o s hm => h.2 _ hm, h.shown_kept.1, h.shown_kept.2⟩
-
-/-- MAIN THEOREM, exact form.  If no comment of the tree contains a carriage return or ends in
-    a line feed, the comments in the output are the comments of the tree, character for
-    character, nothing dropped, duplicated, reordered or altered — at every width and indent. -/
-theorem format_preserves_comments (w indent : Nat) (e : Expr)
-    (hc : ∀ c ∈ printedComments e, cleanComment c) :
+/-- MAIN THEOREM.  For every tree, width and indent the comments in `format_expr_impl`'s
+    output — the comment pieces, in output order — are exactly the comments
+    `printedComments e` of the tree in source order: nothing dropped, duplicated, reordered,
+    merged into code or altered.  No hypothesis. -/
+theorem format_preserves_comments (w indent : Nat) (e : Expr) :
     commentPieces (fmtImplP w indent e) = printedComments e :=
-  (good_impl e w indent).shown_eq hc
+  good_impl e w indent
+
+/-- … spelled out: as many comments in the output as in the tree, the i-th is the i-th, and
+    every comment piece of the output is a comment of the tree -/
+theorem format_keeps_every_comment (w indent : Nat) (e : Expr) :
+    (commentPieces (fmtImplP w indent e)).length = (printedComments e).length ∧
+    (∀ i (h1 : i < (commentPieces (fmtImplP w indent e)).length) (h2 : i < (printedComments e).length),
+      (commentPieces (fmtImplP w indent e))[i] = (printedComments e)[i]) ∧
+    (∀ c, Piece.comment c ∈ fmtImplP w indent e → c ∈ printedComments e) ∧
+    (∀ c, c ∈ printedComments e → Piece.comment c ∈ fmtImplP w indent e) := by
+  have h := format_preserves_comments w indent e
+  refine ⟨by rw [h], fun i h1 h2 => by simp only [h], fun c hc => ?_, fun c hc => ?_⟩
+  · rw [← h]
+    exact List.mem_filterMap.mpr ⟨_, hc, rfl⟩
+  · rw [← h] at hc
+    obtain ⟨p, hp, hq⟩ := List.mem_filterMap.mp hc
+    cases p with
+    | text s => cases hq
+    | comment s => cases hq; exact hp
 
 /-- … and these are ALL comments of the tree when no `return` item carries a trailing comment
     (the parser never produces one) -/
-theorem format_preserves_all_comments (w indent : Nat) (e : Expr) (hr : retClean e = true)
-    (hc : ∀ c ∈ commentsOf e, cleanComment c) :
+theorem format_preserves_all_comments (w indent : Nat) (e : Expr) (hr : retClean e = true) :
     commentPieces (fmtImplP w indent e) = commentsOf e := by
   have he : commentsOf e = printedComments e := commentsG_retClean e hr
-  rw [he] at hc ⊢
-  exact format_preserves_comments w indent e hc
+  rw [he]
+  exact format_preserves_comments w indent e
 
 /-- what `printedComments` leaves out of `commentsOf` is only the trailing comment of
     `return` items -/
@@ -204,11 +209,7 @@ theorem every_layout_preserves_comments (w indent : Nat) :
 
 /-- `Good` unfolded, so that the previous statement can be read on its own -/
 theorem good_means (ps : List Piece) (cs : List String) :
-    Good ps cs ↔ (commentOrigs ps = cs ∧ ∀ p ∈ ps, p.Kept) := Iff.rfl
-
-/-- … and for clean comments `Good` is equality of the comment sequences -/
-theorem good_gives_equal_comments (ps : List Piece) (cs : List String) (h : Good ps cs)
-    (hc : ∀ c ∈ cs, cleanComment c) : commentPieces ps = cs := h.shown_eq hc
+    Good ps cs ↔ commentPieces ps = cs := Iff.rfl
 
 /-- source order of `commentsOf`: the leading comments of an item, the comments inside its
     expression, its trailing comment; the statements of a do-block, then its `return` item;
@@ -283,67 +284,39 @@ theorem layouts_are_total_functions (w indent : Nat) :
   · simp only [fmtCondP, fmtChainP, elseLayout]
 
 /-- `format_expr`: the comments in its result are the comments of the tree -/
-theorem format_expr_preserves_comments (e : Expr) (w : Option Nat)
-    (hc : ∀ c ∈ printedComments e, cleanComment c) :
+theorem format_expr_preserves_comments (e : Expr) (w : Option Nat) :
     commentPieces (formatExprP e w) = printedComments e ∧
     formatExpr e w = render (formatExprP e w) :=
-  ⟨(Good.protect (good_impl e _ 0)).shown_eq hc, (render_protectP _).symm⟩
+  ⟨Good.protect (good_impl e _ 0), (render_protectP _).symm⟩
 
-/-- a comment that is clean is shown unchanged whatever the other comments are -/
-theorem clean_comment_is_shown_unchanged (w indent : Nat) (e : Expr) (o s : String)
-    (hm : Piece.comment o s ∈ fmtImplP w indent e) (hc : cleanComment o) : s = o :=
-  ((good_impl e w indent).2 _ hm).eq_of_clean hc
-
-/-- The one place where `formatter.rs` rewrites text it has already formatted: the right
-    operand of via / into / where goes through `lines()` and `join("\n")`.  On pieces this is
-    `relineP`; its rendering is exactly the Rust expression
-    `format!("{}\n{}", right.lines().next().unwrap_or(right), right.lines().skip(1)…join("\n"))`
-    (`firstLine`, `restLines` = `str::lines()` on characters), and the whole branch renders
-    to `format!("{} {} {}\n{}", left_str, op_str, first_line_of_right, remaining_lines)`. -/
-theorem reline_is_the_lines_round_trip :
-    (∀ ps, hasNewline (render ps) = true →
-      render (relineP ps) = firstLine (render ps) ++ "\n" ++ restLines (render ps)) ∧
-    (∀ w indent op l r lP rSame rIn,
+/-- The right operand of via / into / where is emitted as it was formatted (since repo commit
+    6027914; before, it went through `lines()` and `join("\n")`): when the first line fits, the
+    branch renders to `format!("{} {} {}", left_str, op_str, right_str)`; `firstLine` is used
+    for the width test only. -/
+theorem chain_branch_emits_right_operand_unchanged :
+    ∀ w indent op l r lP rSame rIn,
       (op == .via || op == .into || op == .where_) = true → isLambda r = true →
-      hasNewline (render (parenP (needsParens r (.binRight op)) (rSame ()))) = true →
       indent + blen (render (parenP (needsParens l (.binLeft op)) lP) ++ " " ++ fmtSpelling op ++
         " " ++ firstLine (render (parenP (needsParens r (.binRight op)) (rSame ())))) ≤ w →
       render (binLayout w indent op l r lP rSame rIn) =
         render (parenP (needsParens l (.binLeft op)) lP) ++ " " ++ fmtSpelling op ++ " " ++
-          firstLine (render (parenP (needsParens r (.binRight op)) (rSame ()))) ++ "\n" ++
-          restLines (render (parenP (needsParens r (.binRight op)) (rSame ())))) :=
-  ⟨fun ps h => render_relineP ps h, render_binLayout_chain⟩
+          render (parenP (needsParens r (.binRight op)) (rSame ())) :=
+  render_binLayout_chain
 
-/-- what the round trip does to a text with a line feed: every carriage return directly in
-    front of a line feed goes, and the final line feed of a text that ends in one and has
-    another one before it -/
-theorem lines_round_trip_characterised (s : String) (h : hasNewline s = true) :
-    (relines s).toList =
-      (let q := stripCRs none s.toList
-       if q.getLast? = some '\n' ∧ 2 ≤ q.count '\n' then q.dropLast else q) :=
-  relines_toList s (by simpa [hasNewline, List.contains_iff_mem] using h)
-
-/-! ### where a comment is NOT kept (witnesses; the first one confirmed on the real code) -/
+/-! ### regression example for the repaired defect, and the two AST shapes the parser never
+    builds where a comment is not printed -/
 
 /-- `y = l via x => [⏎ v, // c␍␍⏎]`: the comment is `// c␍` -/
 private abbrev crTree : Expr :=
   .bin .via (.ident "l") (.lambda [.req "x"] (.list [.mk [] (.ident "v") (some "// c\r")]))
 
-/-- GENUINE DEFECT (formatter.rs `format_binary_op_multiline`, the `lines()` / `join("\n")`
-    round trip of the right operand of via / into / where): a carriage return at the end of a
-    comment (in general: in front of a line feed) is deleted — the comment is altered.  Hence
-    the `cleanComment` hypothesis of `format_preserves_comments` cannot be dropped. -/
-theorem carriage_return_is_stripped_from_comment :
+/-- REGRESSION EXAMPLE (defect repaired by repo commit 6027914): a carriage return at the end of
+    a comment inside the function after via / into / where is kept (the `lines()` /
+    `join("\n")` round trip used to delete it) -/
+theorem carriage_return_is_kept_in_comment :
     printedComments crTree = ["// c\r"] ∧
-    commentPieces (fmtImplP 80 0 crTree) = ["// c"] ∧
-    formatExpr crTree (some 80) = "l via x =>\n  [\n    v,  // c\n  ]" ∧
-    ¬ cleanComment "// c\r" := by
-  refine ⟨by decide, by decide, by decide, ?_⟩
-  intro h
-  exact h.1 (by decide)
-
-/-- the same list outside via / into / where keeps its carriage return -/
-example : commentPieces (fmtImplP 80 0 (.list [.mk [] (.ident "v") (some "// c\r")])) = ["// c\r"] := by
+    commentPieces (fmtImplP 80 0 crTree) = ["// c\r"] ∧
+    formatExpr crTree (some 80) = "l via x =>\n  [\n    v,  // c\r\n  ]" := by
   decide
 
 /-- A trailing comment on the `return` item of a do-block is not printed
@@ -415,12 +388,6 @@ private abbrev big : Expr :=
 example : commentsOf big =
     ["// lead a", "// one", "// two", "// after a", "// in key", "// a", "// b", "// r"] := by decide
 example : retClean big = true := by decide
-example : ∀ c ∈ commentsOf big, cleanComment c := by
-  intro c hc
-  have : c ∈ ["// lead a", "// one", "// two", "// after a", "// in key", "// a", "// b", "// r"] := hc
-  simp only [List.mem_cons, List.mem_nil_iff, or_false] at this
-  rcases this with rfl | rfl | rfl | rfl | rfl | rfl | rfl | rfl <;>
-    exact ⟨by decide, by decide⟩
 example : commentPieces (fmtImplP 80 0 big) = commentsOf big := by decide
 example : commentPieces (fmtImplP 10 4 big) = commentsOf big := by decide
 set_option maxRecDepth 8192 in
@@ -443,14 +410,9 @@ example : fmtImplP 80 0 (.call f [.ident "a"]) = [.text "f(a)"] := by decide
 example : Good (fmtItemsP 80 2 [.mk ["// l"] (.ident "v") (some "// t")]) ["// l", "// t"] :=
   (every_layout_preserves_comments 80 2).2.2.2.2.1 _
 
-/-- the `lines()` round trip -/
-example : relines "x => [\n  v,  // c\r\n]" = "x => [\n  v,  // c\n]" := by decide
-example : relines "a\n" = "a\n" ∧ relines "a\n\n" = "a\n" ∧ relines "a\nb\r" = "a\nb\r" ∧
-    relines "a\r\r\nb" = "a\r\nb" := by decide
-example : rustLines "a\r\nb\r\r\n\nc\r" = ["a", "b\r", "", "c\r"] ∧ rustLines "a\n" = ["a"] ∧
-    rustLines "" = [] := by decide
-example : hasNewline (render [.text "x => [", .comment "// c\r" "// c\r", .text "\n]"]) = true := by
-  decide
+/-- `firstLine` is `lines().next().unwrap_or(s)` -/
+example : firstLine "a\r\nb" = "a" ∧ firstLine "a\r" = "a\r" ∧ firstLine "" = "" ∧
+    firstLine "\r\n" = "" ∧ firstLine "a\rb\nc" = "a\rb" := by decide
 end examples
 
 end Blots.C09
